@@ -85,6 +85,8 @@ class Ctx:
         self.prop = prop
         self.tier = tier
         self.facts = facts
+        from . import flow as _flow
+        _flow.DEFAULT_FACTS[0] = facts
         self.facts_alt = facts2
         self.seed = seed
         self.rules = []
